@@ -430,7 +430,7 @@ func (ex *Exec) frameObligations(fr *Frame, fc *FuncContract, env0 *Env, reach s
 	sort.Strings(ks)
 	alloc0 := ex.get(ex.entry, allocKey, SInt)
 	for _, k := range ks {
-		if k == allocKey || strings.HasPrefix(k, "IT.") || strings.HasPrefix(k, "B.") || strings.HasPrefix(k, "CH.cap") {
+		if k == allocKey || strings.HasPrefix(k, "IT.") || strings.HasPrefix(k, "B.") || strings.HasPrefix(k, "CH.cap") || strings.HasPrefix(k, "GG.lastnow.") {
 			continue
 		}
 		skip := false
